@@ -17,14 +17,19 @@ b3) the labels removed from the live segment list are exactly the labels reporte
 g) MultiUidCompactor::run: every uid plan of the batch either yields a result or fails the whole run (no iteration is skipped), because process_batch registers and retires every uid of the batch.
 h) ZoneMerger::{next_row,next_zone}: a cursor that still has rows after being popped (peek_context_id is Some) is always pushed back onto the heap before the next pop or return.
 f) the read path's decision "does segment s hold uid u" must consult the segment index's uid list rather than probe for leftover files.
+i) labels are re-used (the compaction policy re-seeds its allocator from the labels that exist), so whatever a process-wide cache holds for a retired label must be dropped at hand-over: every cache type in
+   read::cache that offers invalidate_segment(label) is reached from CompactionHandover::invalidate_caches, through an adapter wired in CompactionHandover::new or directly (a cache with the method that
+   nobody calls keeps serving the retired segment's xor filters / enum bitmaps for the new segment of the same label).
+j) each invalidate_segment selects keys by a test that can match its own key shape: a key holding the FILE path <shard>/<label>/<file> matches the label as a path component only through parent()
+   (Path::ends_with(label) on a file path is never true - the invalidation is a no-op), a substring or a segment-id comparison matches either shape.
 k) every MergePlan gets an output id of its own: the output_segment_id of each MergePlan built by KWayCountPolicy::plan is the result of a RangeAllocator::next_for_level call made for that plan
    (not a value remembered per chunk position or per level): plans over different input sets that share an output id write into one directory, replace each other's index entry and list the label twice.
 l) ZoneCursorLoader::load_all (the compactor's reader) processes every planned input or fails: no iteration of the loop over the input segments returns to the loop header without having walked
    that segment's zones (a `continue` on a load error merges the readable inputs only, and the hand-over then retires - and reclaims - the unreadable one as well).
-Not decided: content equality, behaviour after a crash inside a run.
+Not decided: content equality, behaviour after a crash inside a run, a read that re-loads a retired label between invalidation and reclaim.
 """
-FLOOR = 12
-REQUIRED = ["C05.a", "C05.b1", "C05.b2", "C05.b3", "C05.c", "C05.d", "C05.e", "C05.f", "C05.g", "C05.h", "C05.k", "C05.l"]
+FLOOR = 14
+REQUIRED = ["C05.a", "C05.b1", "C05.b2", "C05.b3", "C05.c", "C05.d", "C05.e", "C05.f", "C05.g", "C05.h", "C05.i", "C05.j", "C05.k", "C05.l"]
 
 
 def run(ctx):
@@ -311,6 +316,66 @@ def run(ctx):
         return []
     ctx.run("C05.f", "K4 REACH", "QueryPlan::segment_maybe_contains_uid", "retired (uid, segment) pairs stop being read", f)
 
+    def cache_types():
+        ks = [k for k in F.find(r"^engine::core::read::cache::.*::invalidate_segment$") if not k.startswith("bin:")]
+        if len(ks) < 5:
+            raise AnchorMissing("cache types with invalidate_segment in read::cache (%d, confirmed 7)" % len(ks))
+        return ks
+
+    def i_(inst):
+        from ..callgraph import CallGraph
+        cg = CallGraph(F)
+        inv = F.fn("CompactionHandover::invalidate_caches")
+        new = F.fn("CompactionHandover::new")
+        reach = cg.reachable([inv.key])
+        wired = {c_.nname.rsplit("::", 1)[0] for B in (inv, new) for c_ in B.calls if not c_.cleanup and c_.nname.endswith("::instance")}
+        bad = []
+        for k in sorted(cache_types()):
+            ty = k.rsplit("::", 1)[0]
+            short = ty.split("::")[-1]
+            ok_reach = k in reach
+            ok_wired = any(w.endswith(short) for w in wired)
+            inst.sites.append("%s: reached=%s wired=%s" % (short, ok_reach, ok_wired))
+            if not (ok_reach and ok_wired):
+                bad.append(("cache-not-invalidated:%s" % short, "%s offers invalidate_segment but the compaction hand-over never calls it for the retired labels: after the label is re-used its entries are served for the new segment" % short, None))
+        return bad
+    ctx.run("C05.i", "K6 TABLE", "CompactionHandover::invalidate_caches vs read::cache::*::invalidate_segment", "every per-segment process-wide cache is invalidated at hand-over", i_)
+
+    def j_(inst):
+        bad = []
+        n = 0
+        for k in sorted(cache_types()):
+            ty = k.rsplit("::", 1)[0]
+            short = ty.split("::")[-1]
+            fam = [F.fn_exact(k)] + [F.fn_exact(x) for x in F.find("^" + re.escape(k) + r"::\{closure")]
+            pe = [(B, c_) for B in fam for c_ in B.calls if not c_.cleanup and re.search(r"path::Path::ends_with$", c_.nname)]
+            if not pe:
+                inst.sites.append("%s: no path-component test" % short)
+                continue
+            n += 1
+            # key shape: what is joined last when the key's path is built (get_or_load)
+            shape = None
+            for gk in F.find("^" + re.escape(ty) + r"::(get_or_load|get|insert|load)\w*$"):
+                G = F.fn_exact(gk)
+                for c_ in G.find_calls(r"path::Path::join$|PathBuf::join$"):
+                    # the last join: its result is not the receiver of another join
+                    if any(c2.bb != c_.bb and c_.dest[0] in deep_locals(G, c2.args[0]) for c2 in G.find_calls(r"path::Path::join$|PathBuf::join$")):
+                        continue
+                    L = G.origins(c_.args[1])
+                    if any(l[0] == "call" and re.search(r"fmt::format$|must_use$", norm_path(l[1])) for l in L) or any(l[0] == "const" and "." in l[1] for l in L):
+                        shape = "file"
+                    elif any(l[0] == "param" for l in L):
+                        shape = shape or "dir"
+            for B, c_ in pe:
+                via_parent = any(x.nname.endswith("Path::parent") for x in B.calls if not x.cleanup and x.dest and x.dest[0] in wide_all(B, c_.args[0])) \
+                    or any(l[0] == "call" and norm_path(l[1]).endswith("Path::parent") for l in deep_origins(F, B, c_.args[0]))
+                inst.sites.append("%s: key=%s path, ends_with%s" % (short, shape, " on parent()" if via_parent else ""))
+                if shape != "dir" and not via_parent and not any(x[0] == "predicate-never-matches:%s" % short for x in bad):
+                    bad.append(("predicate-never-matches:%s" % short, "%s::invalidate_segment tests key.path.ends_with(label) but the key holds the %s path <label>/<file>: the test is never true and nothing is invalidated" % (short, shape or "?"), None))
+        if n < 1:
+            inst.sites.append("no cache selects keys by path component")
+        return bad
+    ctx.run("C05.j", "K11 SIB", "read::cache::*::invalidate_segment vs key construction", "the invalidation predicate can match the cache's own key shape", j_)
     def k_(inst):
         b = F.method("KWayCountPolicy", "CompactionPolicy", "plan")
         ags = b.aggregates("MergePlan")
